@@ -2,6 +2,7 @@ package main
 
 import (
 	"fmt"
+	"math/rand"
 	"net"
 	"sort"
 	"strconv"
@@ -235,10 +236,31 @@ func engAgg(a []string) string {
 	}
 	switch a[0] {
 	case "rec":
+		// optional trailing p<n>: the record lists its elements in another order (exporters need not agree on
+		// the order of the fields of their templates; the aggregation must find fields by name)
+		perm := int64(-1)
+		if len(a) == 10 && strings.HasPrefix(a[9], "p") {
+			n, err := strconv.ParseInt(a[9][1:], 10, 64)
+			if err != nil {
+				return "bad-op"
+			}
+			perm = n
+			a = a[:9]
+		}
 		if len(a) != 9 {
 			return "bad-op"
 		}
 		rec, err := aggRecord(a[1:])
+		if err == nil && perm >= 0 {
+			es := append([]entities.InfoElementWithValue{}, rec.GetOrderedElementList()...)
+			rand.New(rand.NewSource(perm)).Shuffle(len(es), func(i, j int) { es[i], es[j] = es[j], es[i] })
+			s2 := entities.NewSet(true)
+			s2.PrepareSet(entities.Data, 256)
+			if e2 := s2.AddRecordV2(es, 256); e2 != nil {
+				return "bad-op"
+			}
+			rec = s2.GetRecords()[0]
+		}
 		if err != nil {
 			return "bad-op"
 		}
